@@ -104,7 +104,7 @@ def translate():
         ms = _mode_compares(ex, subject)
         for hf in ("_block_size", "_expand_block"):   # repaired layout keeps the block-mode tests in helpers
             if subject == "block.mode" and not ms and hf in funcs:
-                ms = _mode_compares(funcs[hf], "mode")
+                ms = _mode_compares(funcs[hf], "mode") or _mode_compares(funcs[hf], "block.mode")
         if sorted(set(ms)) != sorted(mode_names):
             raise TranslationError("expand_run_space: %s compared with %s, expected %s" % (subject, ms, mode_names))
 
@@ -162,7 +162,22 @@ def translate():
         raise TranslationError("expand_run_space: no-blocks test has unexpected shape: " + ast.unparse(branch.test))
     inner = [n for st in branch.body for n in ast.walk(st) if _is_cap_raise(n)]
     v_empty_cap = bool(inner)
-    if v_empty_cap:
+    if not inner and v_cap_first:
+        # plan-first layout: the no-blocks case plans `total = 1` and falls into the one general cap test,
+        # which precedes the branch that yields [{}]
+        general = [n for n in ex.body if isinstance(n, ast.If) and any(_is_cap_raise(x) for st in n.body for x in ast.walk(st))]
+        plan0 = [n for n in ex.body if isinstance(n, ast.If) and ast.unparse(n.test) == ast.unparse(branch.test)
+                 and [ast.unparse(st) for st in n.body] == ["total = 1"]]
+        if len(general) == 1 and len(plan0) == 1 and plan0[0].lineno < general[0].lineno < branch.lineno:
+            t = ast.unparse(general[0].test)
+            if t not in ("total > spec.max_runs",
+                         "total > spec.max_runs and (not (spec.combine == 'combinatorial' and total == 0))"):
+                raise TranslationError("expand_run_space: unexpected general cap test: " + t)
+            between = [n for n in ex.body if plan0[0].lineno < n.lineno < general[0].lineno]
+            if any("total" in ast.unparse(n) and not isinstance(n, ast.If) for n in between):
+                raise TranslationError("expand_run_space: planned total modified between the plan and the cap test")
+            v_empty_cap = True
+    if inner:
         g = next((a for a in ancestors(inner[0]) if isinstance(a, ast.If)), None)
         t = ast.unparse(g.test)
         if t not in ("1 > spec.max_runs", "spec.max_runs < 1"):
